@@ -17,7 +17,7 @@ use crate::refimpl::crypto::{Proto, RefKey};
 const HTTP_PREFIX: &str = "HTTP/1.1 200";
 
 pub fn health_once(port: u16, limit: Duration) -> Result<String, String> {
-    let addr = format!("127.0.0.1:{}", port).parse().unwrap();
+    let addr = srv_addr(port);
     let mut s = TcpStream::connect_timeout(&addr, limit).map_err(|e| format!("connect: {}", e))?;
     s.set_read_timeout(Some(limit)).unwrap();
     let _ = s.write_all(b"GET / HTTP/1.0\r\n\r\n");
@@ -171,8 +171,8 @@ pub fn observe(out: &mut Out, sp: &mut ServerProc, pk: &[u8], nworkers: usize, r
     // a burst that arrives while the process is descheduled, together with health connections:
     // everything queued behind one wake-up must still be served
     if let Some(hp) = sp.cfg.health_check_port {
-        let addr: std::net::SocketAddr = format!("127.0.0.1:{}", sp.cfg.port).parse().unwrap();
-        let burst_sock = UdpSocket::bind("127.0.0.1:0").unwrap();
+        let addr: std::net::SocketAddr = srv_addr(sp.cfg.port);
+        let burst_sock = UdpSocket::bind(local_any(sp.cfg.port)).unwrap();
         bg_pause.store(true, std::sync::atomic::Ordering::Relaxed);
         std::thread::sleep(Duration::from_millis(40));
         sp.signal(libc::SIGSTOP);
@@ -204,7 +204,7 @@ pub fn observe(out: &mut Out, sp: &mut ServerProc, pk: &[u8], nworkers: usize, r
         // first in the accept queue: connections that the client resets before they are accepted
         // (writing the reply to them fails); the well-behaved ones queue up behind them
         for _ in 0..nworkers.min(4) {
-            if let Ok(s) = TcpStream::connect_timeout(&format!("127.0.0.1:{}", hp).parse().unwrap(), Duration::from_millis(300)) {
+            if let Ok(s) = TcpStream::connect_timeout(&srv_addr(hp), Duration::from_millis(300)) {
                 let lin = libc::linger { l_onoff: 1, l_linger: 0 };
                 unsafe {
                     libc::setsockopt(std::os::unix::io::AsRawFd::as_raw_fd(&s), libc::SOL_SOCKET, libc::SO_LINGER, &lin as *const libc::linger as *const libc::c_void, std::mem::size_of::<libc::linger>() as u32);
